@@ -33,13 +33,14 @@ func init() {
 	var nSeeds int
 	mon.Register(&mon.Check{
 		ID:          "C06",
-		Rule:        "evaluations = Lint*Ex calls whose every (lint name, status) pair was judged against the prefix contract; distinct_nontrivial = distinct (lint, status) pairs with status >= pass observed (the measure of how many return paths were actually seen). Workload: corpus, generated seeds, hostile mutants, directed families (AIA with unparseable URLs, code-signing key-usage lattice, CRL reason codes/duplicate serials, QC language variants, SCT lattices, signature-algorithm lattice, EKU combinations).",
+		Rule:        "evaluations = Lint*Ex calls whose every (lint name, status) pair was judged against the prefix contract; distinct_nontrivial = distinct (lint, status) pairs with status >= pass observed (the measure of how many return paths were actually seen). Workload: corpus, generated seeds, hostile mutants, objects re-dated to every lint's effective / ineffective instant -1s/0/+1s (severity chosen from the date), directed families (AIA with unparseable URLs, code-signing key-usage lattice, CRL reason codes/duplicate serials, QC language variants, SCT lattices, signature-algorithm lattice, EKU combinations).",
 		Assumptions: []string{"a return path that no generated input reaches is not judged; evidence lists the lints that never produced a finding"},
 		Setup: func(c *mon.Ctx) error {
 			if err := setupCommon(c); err != nil {
 				return err
 			}
 			nSeeds = len(W.Objs)
+			c03Build(c) // the boundary campaign of C03: objects dated exactly at every lint's effective / ineffective instant
 			return nil
 		},
 		Once: func(c *mon.Ctx) {
@@ -57,12 +58,22 @@ func init() {
 				c.R.Count("names_checked", 1)
 			}
 		},
-		Cases: func(c *mon.Ctx) int { return nSeeds + c.Pick(40000, 2000000) + directedCount(c) },
+		Cases: func(c *mon.Ctx) int { return nSeeds + c.Pick(40000, 2000000) + directedCount(c) + len(c03Cases) },
 		RunCase: func(c *mon.Ctx, i int) {
 			nMut := nSeeds + c.Pick(40000, 2000000)
 			var o *mon.Obj
 			var desc string
-			if i >= nMut {
+			if nb := nMut + directedCount(c); i >= nb {
+				cs := c03Cases[i-nb]
+				var base *mon.Obj
+				o, base = c03Object(cs)
+				if o == nil {
+					return
+				}
+				o.Name = base.Name
+				desc = fmt.Sprintf("re-dated to %s of %s", cs.label, Inv[cs.lint].Name)
+				c.R.Count("boundary_dated_objects", 1)
+			} else if i >= nMut {
 				o, desc = directedCase(c, i-nMut)
 				if o == nil {
 					return
